@@ -127,6 +127,17 @@ func CorpusC13(seed int64, tier string) []*Case {
 	}
 	src := newSrc("c13u", pkgs, it)
 	cases = append(cases, &Case{Origin: "c13:unnamed", Src: src, Cfg: Cfg{Dest: "implicit", Args: []string{"Unnamed"}}, Judge: []string{"C13"}, Names: recs})
+	// probe of the recorded finding about unsigned integer kinds (its own case,
+	// so that nothing else can hide behind it)
+	pit := Iface{Name: "UnsignedProbe", OneFile: true}
+	var precs []NameRec
+	for k, n := range []string{"uint", "uint8", "uint16", "uint32", "uint64", "uintptr", "byte"} {
+		mn := fmt.Sprintf("P%02d", k)
+		pit.Methods = append(pit.Methods, meth(mn, ps(par("", Basic(n))), nil))
+		precs = append(precs, NameRec{Iface: pit.Name, Method: mn, Index: 0, NameCs: []string{}, T: Basic(n), Judge: true})
+	}
+	cases = append(cases, &Case{Origin: "c13:unsigned-probe", Src: newSrc("c13p", pkgs, pit), Cfg: Cfg{Dest: "implicit", Args: []string{"UnsignedProbe"}},
+		Judge: []string{"C13"}, Names: precs, KF: "KF-09"})
 	recs2 := append([]NameRec(nil), recs...)
 	cases = append(cases, &Case{Origin: "c13:unnamed:other", Src: src, Cfg: Cfg{Dest: "other", Stub: true, Args: []string{"Unnamed"}}, Judge: []string{"C13"}, Names: recs2})
 	return cases
